@@ -55,7 +55,7 @@ theorem resolveLoop_spec (ev : Ev) (step nw : Nat) (now : Int) :
     · simp only [hm, ↓reduceIte]
       have h1 : IdsOk { ss with waiters := done ++ { w with resolved := some ev } :: rest } nw := h
       obtain ⟨hs, hw, hh⟩ := resolveLoop_spec ev step nw now rest (done ++ [{ w with resolved := some ev }]) _
-        (cmds ++ (addOrEnqueue { ev := w.ev } step
+        (cmds ++ (addOrEnqueue w.replay step
           { ss with waiters := done ++ { w with resolved := some ev } :: rest } nw now).2) true
         (addOrEnqueue_idsOk _ step _ nw now h1)
       refine ⟨?_, ?_, ?_⟩
